@@ -41,6 +41,10 @@ def main(inp: str, out: str) -> int:
         except Exception as e:
             res["dicts"].append("raised:" + type(e).__name__)
     res["pickle_trips"] = K.pickle_trip_events(data["models"], data.get("hists", [""] * len(data["models"])))
+    # the resampling-like sequence, here with every candidate kept alive (and in the opposite order)
+    res["replicates"] = []
+    if data.get("replicates") and data["models"]:
+        res["replicates"] = K.replicate_keys(pickle.loads(data["models"][data.get("replicate_base", 0)]), data["replicates"], keep_alive=True)
     for rec in data["recipes"]:
         try:
             m = K.build_recipe(rec)
